@@ -218,12 +218,22 @@ func (e *Ex) argJS() string {
 
 type mgen struct {
 	r *Rng
+	// min: trees for the minify-syntax stream: no literal leaves and no comma, so that none of the
+	// minifier's own rewrites (constant folding, comma hoisting, dead-chain removal with side
+	// effects: property C03) fires and only the lowering shapes are compared
+	min bool
 }
 
 func lit(k kind, n int64) *Ex { return &Ex{K: k, N: n} }
 
 func (g *mgen) leaf() *Ex {
 	r := g.r
+	if g.min {
+		if r.Chance(15) {
+			return &Ex{K: kThis}
+		}
+		return lit(kId, int64(r.Intn(6)))
+	}
 	switch r.Intn(12) {
 	case 0:
 		return &Ex{K: kNull}
@@ -252,9 +262,16 @@ func (g *mgen) expr(d int) *Ex {
 	case 0, 1, 2, 3, 4:
 		return g.chain(d)
 	case 5, 6:
-		return &Ex{K: kBin, N: 0, Kids: []*Ex{g.expr(d - 1), g.expr(d - 1)}}
+		b := &Ex{K: kBin, N: 0, Kids: []*Ex{g.expr(d - 1), g.expr(d - 1)}}
+		if rt := b.Kids[1]; g.min && ((rt.K == kBin && rt.N == 0) || (rt.K == kOpAsg && rt.N == 0)) {
+			b.Kids[1] = g.leaf() // minify-syntax reassociates "a ?? (b ?? c)" (minifier rewrite)
+		}
+		return b
 	case 7:
 		b := &Ex{K: kBin, N: int64(3 + r.Intn(3)), Kids: []*Ex{g.expr(d - 1), g.expr(d - 1)}}
+		if g.min && b.N == 5 {
+			b.N = 4
+		}
 		if b.N == 5 && b.Kids[1].K == kBin && b.Kids[1].N == 5 {
 			b.Kids[1] = g.leaf() // "a, (b, c)" is printed as "a, b, c" = "(a, b), c" (printer artefact)
 		}
@@ -291,6 +308,10 @@ func (g *mgen) target(d int) *Ex {
 func (g *mgen) chain(d int) *Ex {
 	r := g.r
 	cur := g.expr(d - 1)
+	if g.min && (cur.K == kDelete || (cur.K == kBin && (cur.N == 3 || cur.N == 4)) || (cur.K == kOpAsg && cur.N >= 3)) {
+		// under minify-syntax a chain on a value that is never null/undefined loses its "?." (minifier rewrite)
+		cur = g.leaf()
+	}
 	n := r.Range(1, 4)
 	inChain := false
 	for i := 0; i < n; i++ {
